@@ -6,6 +6,7 @@ import (
 	"fmt"
 
 	"github.com/tetratelabs/wazero/api"
+	"github.com/tetratelabs/wazero/internal/verifhook"
 	"github.com/tetratelabs/wazero/sys"
 )
 
@@ -101,7 +102,9 @@ func (m *ModuleInstance) CloseWithExitCode(ctx context.Context, exitCode uint32)
 	if !m.setExitCode(exitCode, exitCodeFlagResourceClosed) {
 		return nil // not an error to have already closed
 	}
+	verifhook.Point("module.close.after-cas")
 	_ = m.s.deleteModule(m)
+	verifhook.Point("module.close.after-delete")
 	return m.ensureResourcesClosed(ctx)
 }
 
